@@ -535,7 +535,35 @@ impl DefGen {
         if r >= 5 {
             return t;
         }
-        let name = self.fresh("Ty_");
+        // A2ML keeps one name space per kind (enum / struct / taggedstruct / taggedunion): with some probability a top-level
+        // definition reuses a name that is already defined for ANOTHER kind (and not yet for this one); references written
+        // before and after the second declaration must still resolve to the type of their own kind
+        let kind = match &t {
+            Ty::Enum(..) => 0usize,
+            Ty::Struct(..) => 1,
+            Ty::TStruct(..) => 2,
+            Ty::TUnion(..) => 3,
+            _ => 4,
+        };
+        let mut name = self.fresh("Ty_");
+        if r < 3 && kind < 4 && self.rng.below(3) == 0 {
+            let kind_of = |x: &Ty| match x {
+                Ty::Enum(Some(n), ..) => Some((0usize, n.clone())),
+                Ty::Struct(Some(n), ..) => Some((1, n.clone())),
+                Ty::TStruct(Some(n), ..) => Some((2, n.clone())),
+                Ty::TUnion(Some(n), ..) => Some((3, n.clone())),
+                _ => None,
+            };
+            let taken: Vec<(usize, String)> = self.named.iter().filter_map(kind_of).collect();
+            let cands: Vec<String> = taken
+                .iter()
+                .filter(|(k, n)| *k != kind && !taken.iter().any(|(k2, n2)| *k2 == kind && n2 == n))
+                .map(|(_, n)| n.clone())
+                .collect();
+            if !cands.is_empty() {
+                name = cands[self.rng.below(cands.len())].clone();
+            }
+        }
         let (defined, used) = match t {
             Ty::Enum(_, _, items) => (Ty::Enum(Some(name.clone()), r < 3, items.clone()), Ty::Enum(Some(name), r < 3, items)),
             Ty::Struct(_, _, m) => (Ty::Struct(Some(name.clone()), r < 3, m.clone()), Ty::Struct(Some(name), r < 3, m)),
